@@ -956,7 +956,9 @@ func (rn *runner) finalDrain(g *genCfg) {
 
 func (rn *runner) runRandom(rng *rand.Rand, capacity, inflExp, nops int) {
 	g := &genCfg{rng: rng, noBig: rn.fac.Name != "mem", canReopen: rn.fac.Reopen != nil}
-	limits := [][]uint32{{math.MaxUint32}, {math.MaxUint32, 120}, {120, 300}}[rng.Intn(3)]
+	// 130/131 and 16387/16388: the packet sizes on both sides of the remaining lengths 128 and 16384, where the length field
+	// itself grows by a byte (no packet is 130 or 16387 bytes long)
+	limits := [][]uint32{{math.MaxUint32}, {math.MaxUint32, 120}, {120, 300}, {130, 131, 129}, {16387, 16388, 120}}[rng.Intn(5)]
 	for i := 0; i < nops && !rn.dead; i++ {
 		if len(rn.sacrificed) > 0 {
 			g.stale = append(g.stale, rn.sacrificed...)
